@@ -18,6 +18,7 @@ import (
 	"fmt"
 	"go/token"
 	"go/types"
+	"strings"
 
 	"golang.org/x/tools/go/ssa"
 )
@@ -212,8 +213,13 @@ func constantConditions(p *Program, fn *ssa.Function) (int, []Finding) {
 			n++
 			if sameObservation(fn, ox, oy) {
 				outcome := "always true"
+				deadSucc := 1
 				if a.Op == token.LSS || a.Op == token.GTR || a.Op == token.NEQ {
 					outcome = "never true"
+					deadSucc = 0
+				}
+				if !armIsDead(b, deadSucc) {
+					continue // the code behind the dead edge is reachable another way (a merged condition): nothing is lost
 				}
 				hits = append(hits, Finding{fn, iff.Cond.Pos(), "constant-condition(" + descValue(iff.Cond, 0) + ")",
 					fmt.Sprintf("%s: the condition compares %s with the same observation of the same unchanged object: it is %s, so one arm is dead — the comparison was meant for another operand", funcKey(fn), ox.name, outcome)})
@@ -253,8 +259,10 @@ func constantConditions(p *Program, fn *ssa.Function) (int, []Finding) {
 					continue
 				}
 				known := ""
+				value := false // what the tested call returns
 				if pob.name == ob.name {
 					known = fmt.Sprintf("%s has already returned %v for this object on every path to here", ob.name, holds)
+					value = holds
 				} else if holds && exclusiveObservers[pob.call.Call.StaticCallee().Name()] && exclusiveObservers[ob.call.Call.StaticCallee().Name()] &&
 					types.Identical(pob.call.Call.StaticCallee().Signature.Recv().Type(), ob.call.Call.StaticCallee().Signature.Recv().Type()) {
 					known = fmt.Sprintf("%s returned true for this object on every path to here, which excludes %s", pob.name, ob.name)
@@ -263,6 +271,15 @@ func constantConditions(p *Program, fn *ssa.Function) (int, []Finding) {
 					continue
 				}
 				if !pob.call.Block().Dominates(ob.call.Block()) || !unchangedBetween(fn, ob.args[0], pob.call, ob.call) {
+					continue
+				}
+				// the edge taken when the condition is true is dead iff the call returns false (xor the negation)
+				condTrue := value != a.Neg
+				deadSucc := 0
+				if condTrue {
+					deadSucc = 1
+				}
+				if !armIsDead(b, deadSucc) {
 					continue
 				}
 				hits = append(hits, Finding{fn, iff.Cond.Pos(), "constant-condition(" + descValue(iff.Cond, 0) + ")",
@@ -335,4 +352,46 @@ func isLenCall(v ssa.Value) bool {
 	}
 	b, ok := c.Call.Value.(*ssa.Builtin)
 	return ok && b.Name() == "len"
+}
+
+// armIsDead: the successor #k of block b can only be entered through that edge (so that a dead
+// edge makes the code behind it unreachable). With `A || B` conditions the shared target has other
+// predecessors and stays live.
+func armIsDead(b *ssa.BasicBlock, k int) bool {
+	if k >= len(b.Succs) {
+		return false
+	}
+	t := b.Succs[k]
+	if len(t.Preds) != 1 {
+		return false
+	}
+	// a defensive re-check (the arm only panics or returns an error built on the spot) loses
+	// nothing when it is dead: the arm must do work — call into the module or store to memory
+	work := false
+	for _, in := range t.Instrs {
+		switch x := in.(type) {
+		case *ssa.Store:
+			work = true
+		case ssa.CallInstruction:
+			if cal := x.Common().StaticCallee(); cal != nil && strings.HasPrefix(fnPkgPath(cal), modPath) {
+				work = true
+			}
+		}
+	}
+	if !work {
+		return false
+	}
+	// an empty forwarding block whose target has other predecessors is not an arm
+	if len(t.Instrs) == 1 {
+		if _, isJump := t.Instrs[0].(*ssa.Jump); isJump && len(t.Succs) == 1 && len(t.Succs[0].Preds) > 1 {
+			// the join is reached anyway; a dead edge into it loses a phi value at most
+			for _, in := range t.Succs[0].Instrs {
+				if _, isPhi := in.(*ssa.Phi); isPhi {
+					return true
+				}
+			}
+			return false
+		}
+	}
+	return true
 }
